@@ -120,6 +120,7 @@ def rich_cases(ctx):
 
     pairs = [(p, 'ordered') for p in FAM.rich_pairs(ctx, 300 if ctx.thorough() else 60)]
     pairs += [(p, 'ignore_order') for p in FAM.rich_pairs(ctx, 150 if ctx.thorough() else 30, sets=False)]
+    pairs += [(p, 'ordered') for p in FAM.hostile_pairs(ctx, 200 if ctx.thorough() else 40)]          # hostile keys, edge-case leaves, shared sub-objects
     arrs = [np.array([1, 2, 3]), np.array([1, 5, 3]), np.array([1.5, 2.5, 3.5]), np.array([[1, 2], [3, 4]]), np.array([[1, 2], [3, 5]]), np.array([0, 0, 0]), np.array([[1.5, 0.0], [0.0, 2.5]])]
     for _ in range(60 if ctx.thorough() else 16):
         a = ctx.rng.choice(arrs)
